@@ -1,5 +1,6 @@
 //! Port-level workers (whole iceoryx2 stack, `local::Service` and `ipc::Service`).
 mod dom;
+mod ev;
 mod grow;
 mod ps;
 mod ps_conc;
@@ -239,6 +240,40 @@ fn rr_concurrent(args: &Args) -> Report {
     rep
 }
 
+fn ev_campaign(args: &Args) -> Report {
+    use vkit::campaign::{campaign, Budget};
+    let seed = args.u64("seed", 1);
+    let shard = args.u64("shard", 0);
+    let b = Budget::from_args(args);
+    let ipc = args.str("svc", "local") == "ipc";
+    let mut rep = Report::new();
+    dom::install_log_capture();
+    let d = dom::Domain::new(&format!("c05{}", shard));
+    let mut i = 0u64;
+    let mut tag = 0u64;
+    while i < b.max_progs && !b.expired() {
+        let pi = b.only_prog.unwrap_or(i);
+        let mut rng = Rng::derive(&[seed, shard, pi, 505]);
+        let cfg = ev::ECfg { notifiers: rng.range(1, 3) as usize, rounds: rng.range(2, 4) as usize, ipc, seed: rng.next() };
+        let desc = Json::obj().set("event_rounds", format!("{:?}", cfg));
+        let replay = format!("c05 --svc {} --seed {} --shard {} --only-prog {}", if ipc { "ipc" } else { "local" }, seed, shard, pi);
+        if i < 1 {
+            rep.sample(desc.clone());
+        }
+        campaign(&mut rep, &mut rng, &b, "C05", &desc, &replay, vkit::fnv_str(&format!("{:?}", cfg)), &mut |m| {
+            tag += 1;
+            ev::execute(&d.config, cfg, m, tag ^ (shard << 40))
+        });
+        let _ = dom::drain_bad_logs(&[]);
+        i += 1;
+        if b.only_prog.is_some() {
+            break;
+        }
+    }
+    rep.count("programs", i);
+    rep
+}
+
 fn ps_concurrent(args: &Args, prop: &str) -> Report {
     use vkit::sched::Mode;
     let seed = args.u64("seed", 1);
@@ -298,6 +333,7 @@ fn main() {
         "c11" => rr_campaign(&args, "C11"),
         "c15g" => grow_campaign(&args),
         "c11c" => rr_concurrent(&args),
+        "c05" => ev_campaign(&args),
         "c08r" => rr_campaign(&args, "C08"),
         "warmup" => return,
         other => {
